@@ -421,52 +421,55 @@ func c30Final(pts []int64) func(w *vx.W, s *c30State) {
 	}
 }
 
+// c30Ops builds the alphabet of the depth-bounded parts.
+func c30Ops(P, L, WE, MID []int64) []c30Op {
+	var ops []c30Op
+	for _, n := range L {
+		for _, off := range P {
+			ops = append(ops, c30Op{K: "w", Off: off, Len: n, Mid: -1})
+		}
+	}
+	for _, n := range WE {
+		ops = append(ops, c30Op{K: "we", Len: n, Mid: -1})
+	}
+	for _, off := range P {
+		ops = append(ops, c30Op{K: "d", Off: off, Mid: -1})
+	}
+	ops = append(ops, c30Op{K: "de", Mid: -1})
+	for _, n := range []int64{1, 4096} {
+		for _, mid := range MID {
+			ops = append(ops, c30Op{K: "f", Len: n, Mid: mid})
+		}
+	}
+	return ops
+}
+
+func c30Bounded(c *vx.Ctx, part string, depth int, P, L, WE, MID []int64) {
+	ops := c30Ops(P, L, WE, MID)
+	c.Rule(fmt.Sprintf("%s: breadth-first search to depth %d from the empty pipe over %d operations: writeAt(off in %v, len in %v), writeAt(end, len in %v), discardBefore(off in the same offsets, off >= start), discardBefore(end), and the Stream.Write fast path (buf := availableBuffer(); optional discardBefore in between: %v where -1 = none, -2 = end; write min(len, len(buf)) bytes for len in {1,4096}; end += n); pooled 4096-byte chunks (natural size)", part, depth, len(ops), P, L, WE, MID))
+	vx.Seq(c, vx.SeqSpec[*c30State, c30Op]{
+		Part:    part,
+		New:     c30New,
+		Close:   c30Close,
+		Ops:     ops,
+		Enabled: c30Enabled,
+		Apply:   c30Apply,
+		Canon:   c30Canon,
+		Final:   c30Final(P),
+		Depth:   depth,
+	})
+}
+
 func TestVerif_C30(t *testing.T) {
 	vx.Run(t, "C30", func(c *vx.Ctx) {
-		P := vx.Pick(c,
-			[]int64{0, 1, 4095, 4096, 4097, 8192},
-			[]int64{0, 1, 4095, 4096, 4097, 8191, 8192, 8193, 12288})
-		L := vx.Pick(c,
-			[]int64{0, 1, 4095, 4097, 8193},
-			[]int64{0, 1, 2, 4095, 4096, 4097, 8193})
-		depth := vx.Pick(c, 4, 5)
-		var ops []c30Op
-		for _, n := range L {
-			for _, off := range P {
-				ops = append(ops, c30Op{K: "w", Off: off, Len: n, Mid: -1})
-			}
-		}
-		for _, n := range vx.Pick(c, []int64{1, 4096, 4097}, []int64{1, 4095, 4096, 4097}) {
-			ops = append(ops, c30Op{K: "we", Len: n, Mid: -1})
-		}
-		for _, off := range P {
-			ops = append(ops, c30Op{K: "d", Off: off, Mid: -1})
-		}
-		ops = append(ops, c30Op{K: "de", Mid: -1})
-		for _, n := range []int64{1, 4096} {
-			for _, mid := range vx.Pick(c, []int64{-1, -2, 4096}, []int64{-1, -2, 4096, 8192}) {
-				ops = append(ops, c30Op{K: "f", Len: n, Mid: mid})
-			}
-		}
-		c.Rule(fmt.Sprintf("breadth-first search to depth %d from the empty pipe over %d operations: writeAt(off in %v, len in %v), writeAt(end, len in {1,[4095,]4096,4097}), discardBefore(off in the same offsets, off >= start), discardBefore(end), and the Stream.Write fast path (availableBuffer, optional discardBefore(end|4096[|8192]) in between, write min(len, available) for len in {1,4096}, end += n); pooled 4096-byte chunks (natural size). States are deduplicated on (start, end, chunk offsets and tail, runs of written/never-written offsets in the window). After every operation: start, end and the whole window [start,end) via copy are compared with an offset->byte array (a divergence makes a distinct state and is reported by the per-state check); on every new state: copy and read (callback concatenation) of every sub-range with endpoints in the offsets u {start,start+1,end-1,end}, and peek(n). Non-trivial = an operation that was applied and compared.", depth, len(ops), P, L))
+		c.Rule("all parts: real pipe and reference model (array: stream offset -> operation that last wrote it, hence the byte; window start/end) in lock-step. States are deduplicated on (start, end, chunk offsets and tail, runs of written/never-written offsets in the window). After every operation start and end are compared, and the whole window [start,end) is read with copy and compared (a divergence makes a distinct state, reported by the per-state check with the shortest history); on every new state: copy and read (concatenation of the callback's slices) of every sub-range with endpoints in the part's offsets u {start,start+1,end-1,end}, and peek(n) for n in {0,1,2,4095,4096,4097,end-start}. Every written byte encodes the position of its operation in the history and its stream offset; dead and recycled chunk bytes are poisoned, so stale, misplaced or lost data never equals an expected byte. Non-trivial = an operation that was applied and compared.")
 		c.Assume("the pipe never branches on byte values, so states that agree on structure (and whose contents were just verified equal to the model's) have equal futures")
 		c.Assume("never-written offsets inside the window (holes left by out-of-order writes or by advancing the window without data) have unspecified contents and are not compared; reads are only issued inside [start,end); discardBefore only moves forward; peek may return fewer than n bytes (documented range [0,n]); the chunk-list relations of the struct comments are recorded as outcomes, not asserted")
-		vx.Seq(c, vx.SeqSpec[*c30State, c30Op]{
-			Part:    "natural-4096",
-			New:     c30New,
-			Close:   c30Close,
-			Ops:     ops,
-			Enabled: c30Enabled,
-			Apply:   c30Apply,
-			Canon:   c30Canon,
-			Final:   c30Final(P),
-			Depth:   depth,
-		})
 
-		// Second part: full reachable-state closure (histories of every length)
-		// at the natural chunk size over a coarse universe: all offsets and
-		// lengths are multiples of 1024 bytes in [0, U*1024), so that a chunk
-		// is 4 cells and the state space is finite.
+		// Part 1: full reachable-state closure (histories of every length) at
+		// the natural chunk size over a coarse universe: all offsets and lengths
+		// are multiples of 1024 bytes in [0, U*1024), so that a chunk is 4 cells
+		// and the state space is finite.
 		const cell = 1024
 		U := int64(vx.Pick(c, 8, 10))
 		var cops []c30Op
@@ -485,7 +488,7 @@ func TestVerif_C30(t *testing.T) {
 				cops = append(cops, c30Op{K: "f", Len: n, Mid: mid})
 			}
 		}
-		c.Rule(fmt.Sprintf("closure-1024: the same real pipe, model, comparisons and state key, explored breadth-first until no new state is reachable (so histories of every length are covered) over the universe [0,%d): writeAt(off,len) for every off,len multiple of 1024 with off+len <= %d, discardBefore(every multiple of 1024 >= start), and the fast path (1024 bytes or all available space, clipped to the universe, with or without discardBefore(end) in between)", U*cell, U*cell))
+		c.Rule(fmt.Sprintf("closure-1024: explored breadth-first until no new state is reachable (so histories of every length are covered) over the universe [0,%d) with %d operations: writeAt(off,len) for every off,len multiple of 1024 with off+len <= %d, discardBefore(every multiple of 1024 >= start), and the fast path (1024 bytes or all available space, clipped to the universe, with or without discardBefore(end) in between)", U*cell, len(cops), U*cell))
 		vx.Seq(c, vx.SeqSpec[*c30State, c30Op]{
 			Part: "closure-1024",
 			New: func() *c30State {
@@ -506,5 +509,17 @@ func TestVerif_C30(t *testing.T) {
 			Final: c30Final(cpts),
 			Depth: 1 << 20,
 		})
+
+		// Part 2: byte-exact offsets on both sides of the chunk boundaries,
+		// depth-bounded.
+		c30Bounded(c, "natural-4096", vx.Pick(c, 4, 5),
+			[]int64{0, 1, 4095, 4096, 4097, 8192}, []int64{0, 1, 4095, 4097, 8193},
+			[]int64{1, 4096, 4097}, []int64{-1, -2, 4096})
+		// Part 3 (thorough): the wider alphabet of DESIGN.md, one level less deep.
+		if !c.Quick() {
+			c30Bounded(c, "natural-4096-wide", 4,
+				[]int64{0, 1, 4095, 4096, 4097, 8191, 8192, 8193, 12288}, []int64{0, 1, 2, 4095, 4096, 4097, 8193},
+				[]int64{1, 4095, 4096, 4097}, []int64{-1, -2, 4096, 8192})
+		}
 	})
 }
